@@ -30,6 +30,21 @@ UNITS = [
       functions=["secp256k1_schnorrsig_inc_aggregate", "secp256k1_schnorrsig_aggregate"], unwind=66,
       unwindset=["secp256k1_schnorrsig_inc_aggregate.0:1", "secp256k1_schnorrsig_inc_aggregate.1:1", "secp256k1_schnorrsig_inc_aggregate.2:1"], timeout=600, min_obl=100, replay=False, solver="cadical", slice_formula=True,
       note="count-overflow / NULL / buffer-too-small gates for EVERY n_before, n_new, length (exact-size objects): inputs restricted to those the specification rejects before the first loop; entering a loop fails the unwinding assertion"),
+    U("C17.aggverify_loop", ["C17"], "harness/C17/aggverify.c", "h_aggverify", defs=["C17_LOOP"],
+      replace=HASH + ["secp256k1_ge_set_xo_var", "secp256k1_schnorrsig_challenge", "secp256k1_ecmult", "secp256k1_ecmult_gen", "secp256k1_gej_add_ge_var", "secp256k1_gej_add_var"],
+      assumed=["secp256k1_ge_set_xo_var", "secp256k1_ecmult", "secp256k1_ecmult_gen", "secp256k1_gej_add_ge_var", "secp256k1_gej_add_var"],
+      functions=["secp256k1_schnorrsig_aggverify"],
+      loop_contracts={"secp256k1_schnorrsig_aggverify": {"for (i = 0; i < n; ++i)": {
+          "assigns": "i, rhs, hash, g_illegal, g_error, verif_c17_whit, verif_c17_bad, c17_fin_hit, __CPROVER_object_whole(c17_dig), c17_xo_hit, c17_xo_rej, c17_xo_anyrej, c17_ch_hit, c17_e, "
+                     "c17_em_e_hit, c17_em_z_hit, c17_eP, c17_zT, c17_zT_kind, c17_T_hit, c17_T, c17_cmp_hit, c17_cmp_inf, c17_acc_z, c17_acc_plain",
+          "invariants": "i <= n && hash.bytes == 64 + 96 * (unsigned long)i && verif_c17_bad == 0 && c17_xo_rej == 0 && c17_xo_anyrej == 0 && c17_cmp_hit == 0 && "
+                        "((verif_c17_wpos >= 64 && verif_c17_wpos < 64 + 96 * (unsigned long)i) ==> verif_c17_whit != 0) && "
+                        "(verif_c17_gk < i ==> (c17_r_ok != 0 && c17_xo_hit != 0 && c17_ch_hit != 0 && c17_fin_hit != 0 && "
+                        "(c17_pk_canon != 0 ==> (c17_em_e_hit != 0 && c17_T_hit != 0 && (verif_c17_gk != 0 ? (c17_em_z_hit != 0 && c17_acc_z != 0) : c17_acc_plain != 0)))))",
+          "decreases": "n - i"}}},
+      unwind=66, timeout=2400, tier="thorough", min_obl=100, replay=False, slice_formula=True, object_bits=10,   # MiniSat: CaDiCaL exhausts 33 GB on this instance, MiniSat needs 1 GB / 12 s
+      closed_by="loop contract over the n signatures (engine-supplied, no /repo edit): invariant = stream length, no wrong byte / rejected lift so far, and 'watched index < i => its hit flags are set'",
+      note="n symbolic <= 2^20, exact-size objects; the invariant is specific to the code's form (T_0 enters the sum unmultiplied)"),
 ]
 
 # NOT LISTED (undecided, kept as a record; written BEFORE the audit rework - the invariants name ghost variables of the
